@@ -12,6 +12,7 @@ import CstructModel.Compiler
 import CstructModel.Compile
 import CstructModel.DefParser
 import CstructModel.Update
+import CstructModel.BitBufferProto
 open Cstruct Cstruct.Proto
 
 def pairs? (s : Sexp) : Option (List (String × Int)) :=
@@ -429,6 +430,8 @@ def handle (s : Sexp) : Sexp :=
           (match s.commitErr with | some e => errSexp e | none => .atom "none"),
           .list ((Update.names s.fields).map .str), .list (s.persisted.map optNat)])
     | _, _ => .list [.atom "bad-args"]
+  -- (bbops endian host hexstream pos (op ...)): the BitBuffer object model, see CstructModel/BitBufferProto.lean
+  | .list (.atom "bbops" :: args) => BBuf.bbops args
   | _ => .list [.atom "bad-op"]
 
 partial def loop (h out : IO.FS.Stream) : IO Unit := do
